@@ -1,8 +1,9 @@
 (* Correspondence for C13 on integer-exact cases.  A case holds the transforms a node is
    built with (constructor arguments, or the floats of loaded elements), an edit history of
-   node.transforms, and what the implementation showed: node.matrix after construction/load,
-   the matrix of every transform in the edited list, node.matrix after save(), and the
-   node.matrix of the document written and loaded again (all rounded to integers by the
+   node.transforms, a second edit history applied after the first save(), and what the
+   implementation showed: node.matrix after construction/load, the matrix of every transform in
+   the edited list and node.matrix after each save(), and the node.matrix of the document
+   written and loaded again (all rounded to integers by the
    worker, which rejects anything farther than 0.05 from an integer;
    the harness bounds the magnitudes so that float32 rounding and the 1e-7 residues of cos/sin
    at multiples of 90 degrees stay far below that). *)
@@ -13,7 +14,8 @@ Import ListNotations.
 Definition ztransform := transform Z.
 Definition zedit := edit Z.
 
-Definition case := (list ztransform * list zedit * list Z * list (list Z) * list Z * list Z)%type.
+Definition case := (list ztransform * list zedit * list zedit *
+                    list Z * list (list Z) * list Z * list (list Z) * list Z * list Z)%type.
 
 Fixpoint all_eqb (a b : list (list Z)) : bool :=
   match a, b with
@@ -22,15 +24,22 @@ Fixpoint all_eqb (a b : list (list Z)) : bool :=
   | _, _ => false
   end.
 
+Definition mats_of (n : node Z) : list (list Z) :=
+  map (fun t => mat_to_list (transform_matrix zops t)) (transforms n).
+
+(* construct / load; edit, save; edit again, save again; write and load again *)
 Definition case_ok (c : case) : bool :=
-  let '(init0, edits, obs_init, obs_mats, obs_saved, obs_reloaded) := c in
+  let '(init0, edits, edits2, obs_init, obs_mats, obs_saved, obs_mats2, obs_saved2, obs_reloaded) := c in
   let n0 := construct zops init0 in
   let n1 := save zops (run_edits n0 edits) in
+  let n2 := save zops (run_edits n1 edits2) in
   list_eqbZ (mat_to_list (matrix n0)) obs_init &&
-  all_eqb (map (fun t => mat_to_list (transform_matrix zops t)) (transforms n1)) obs_mats &&
+  all_eqb (mats_of n1) obs_mats &&
   list_eqbZ (mat_to_list (matrix n1)) obs_saved &&
+  all_eqb (mats_of n2) obs_mats2 &&
+  list_eqbZ (mat_to_list (matrix n2)) obs_saved2 &&
   (* the reloaded node is constructed from the written elements, in their written order *)
-  list_eqbZ (mat_to_list (node_matrix zops (transforms n1))) obs_reloaded.
+  list_eqbZ (mat_to_list (node_matrix zops (transforms n2))) obs_reloaded.
 
 Fixpoint mismatches_from (i : nat) (cs : list case) : list nat :=
   match cs with
